@@ -414,7 +414,7 @@ def _rule_nullable_links(prog, chk, R):
             chk.ob('R12.9', f, n.get('ln', f.ln), ok,
                    '%s is dereferenced; the evaluator tests this link for null elsewhere (%s can be null: abstract method, defaulted constructor …), so the dereference needs the '
                    'dominating test too' % (txt, m['q'].split('::')[-2] + '::' + m['q'].split('::')[-1]), key='link:%s:%s' % (f.short, m['q'].split('::')[-2]))
-    chk.count('dereferences of nullable syntax-tree links', nd, 4)
+    chk.count('dereferences of nullable syntax-tree links', nd, 1)     # (a contradiction rule: bodies handed to a helper as raw pointers leave fewer direct dereferences)
 
 
 def _rule_inplace_shrink(prog, chk, R, owners, dtor):
